@@ -38,6 +38,25 @@ def _draw_inputs(count, cfg, stars=False):
     return specs, ann_on, dv, av
 
 
+def _concrete_inputs(specs, ann_on):
+    """The same functions with concrete metadata values (used for a dry run: sigtools formats parameters
+    into its ValueError messages, which would make CrossHair enumerate the symbolic values)"""
+    sigs = []
+    for j, s in enumerate(specs):
+        dv = dict((nm, 1000 + 10 * j + i) for i, nm in enumerate(s.names))
+        av = dict((nm, 2000 + 10 * j + i) for i, nm in enumerate(s.names))
+        sigs.append(S.signature(_make(s, 'c%d' % j, ann_on[j], dv, av)))
+    return sigs
+
+
+def _would_raise(fn):
+    try:
+        fn()
+    except ValueError:
+        return True
+    return False
+
+
 def _render(specs, ann_on):
     out = []
     for s, a in zip(specs, ann_on):
@@ -112,6 +131,9 @@ def h_merge(ctx, cfg):
         ctx.case('merge ' + _render(specs, ann_on), nontrivial=False)
         if not cons:
             return
+        if _would_raise(lambda: S.merge(*_concrete_inputs(specs, ann_on))):
+            ctx.count('raised')
+            return
         sigs = [S.signature(_make(s, 'f%d' % j, ann_on[j], dv[j], av[j])) for j, s in enumerate(specs)]
     try:
         R = S.merge(*sigs)
@@ -166,6 +188,9 @@ def h_embed(ctx, cfg):
     uva = sym.flip('uva'); uvk = sym.flip('uvk')
     with sym.notrace():
         ctx.case('embed %s use_varargs=%d use_varkwargs=%d' % (_render(specs, ann_on), uva, uvk), nontrivial=False)
+        if _would_raise(lambda: S.embed(*_concrete_inputs(specs, ann_on), use_varargs=uva, use_varkwargs=uvk)):
+            ctx.count('raised')
+            return
         sigs = [S.signature(_make(s, 'f%d' % j, ann_on[j], dv[j], av[j])) for j, s in enumerate(specs)]
     try:
         R = S.embed(*sigs, use_varargs=uva, use_varkwargs=uvk)
@@ -180,9 +205,12 @@ def h_mask(ctx, cfg):
     specs, ann_on, dv, av = _draw_inputs(1, cfg)
     spec = specs[0]
     names = draw_names(name_pool(spec, foreign=False), cfg.get('names', 1))
-    n = draw_num_args(spec)
+    n = sym.pick(sum(1 for k in spec.kinds if k < 2) + 3, 'n')
     with sym.notrace():
-        ctx.case('mask %s n=? names=%s' % (_render(specs, ann_on), ','.join(names) or '-'), nontrivial=False)
+        ctx.case('mask %s n=%d names=%s' % (_render(specs, ann_on), n, ','.join(names) or '-'), nontrivial=False)
+        if _would_raise(lambda: S.mask(_concrete_inputs(specs, ann_on)[0], n, *names)):
+            ctx.count('raised')
+            return
         sig = S.signature(_make(spec, 'f0', ann_on[0], dv[0], av[0]))
     try:
         R = S.mask(sig, n, *names)
@@ -211,9 +239,13 @@ def h_mask(ctx, cfg):
 def h_forwards(ctx, cfg):
     specs, ann_on, dv, av = _draw_inputs(2, cfg)
     names = draw_names(name_pool(specs[1], foreign=False), cfg.get('names', 1))
-    n = draw_num_args(specs[1])
+    n = sym.pick(sum(1 for k in specs[1].kinds if k < 2) + 3, 'n')
     with sym.notrace():
-        ctx.case('forwards %s n=? names=%s' % (_render(specs, ann_on), ','.join(names) or '-'), nontrivial=False)
+        ctx.case('forwards %s n=%d names=%s' % (_render(specs, ann_on), n, ','.join(names) or '-'), nontrivial=False)
+        ci = _concrete_inputs(specs, ann_on)
+        if _would_raise(lambda: S.forwards(ci[0], ci[1], n, *names)):
+            ctx.count('raised')
+            return
         sigs = [S.signature(_make(s, 'f%d' % j, ann_on[j], dv[j], av[j])) for j, s in enumerate(specs)]
     try:
         R = S.forwards(sigs[0], sigs[1], n, *names)
@@ -232,6 +264,11 @@ def h_partial(ctx, cfg):
     kv = dict((nm, sym.sym_val('kv')) for nm in bound)
     with sym.notrace():
         ctx.case('partial %s bound=%s' % (_render(specs, ann_on), ','.join(bound) or '-'), nontrivial=False)
+        if _would_raise(lambda: S.signature(functools.partial(
+                _make(spec, 'c0', ann_on[0], dict((nm, 1000 + i) for i, nm in enumerate(spec.names)),
+                      dict((nm, 2000 + i) for i, nm in enumerate(spec.names))), **dict((nm, 0) for nm in bound)))):
+            ctx.count('raised')
+            return
         fn = _make(spec, 'f0', ann_on[0], dv[0], av[0])
     p = functools.partial(fn, **kv)
     try:
@@ -270,9 +307,9 @@ def plan(tier):
                  bounds='embed: pairs, <=2 named in total, 4 flag combinations', min_nontrivial=300,
                  must_reach=['outer-before-inner', 'annotation-kept']),
             dict(name='mask-K2', fn='h_mask', depth=8, budget_s=200, cfg=dict(K=2, names=1),
-                 bounds='mask: <=2 named, num_args symbolic 0..len+2, <=1 name', min_nontrivial=200),
-            dict(name='forwards-total2', fn='h_forwards', depth=9, budget_s=240, cfg=dict(K=2, total=2, names=1),
-                 bounds='forwards: pairs, <=2 named in total, num_args symbolic, <=1 name', min_nontrivial=300),
+                 bounds='mask: <=2 named, num_args 0..len+2, <=1 name', min_nontrivial=200),
+            dict(name='forwards-total2', fn='h_forwards', depth=9, budget_s=240, cfg=dict(K=2, total=2, names=0),
+                 bounds='forwards: pairs, <=2 named in total, num_args 0..len+2, no names', min_nontrivial=300),
             dict(name='partial-K2', fn='h_partial', depth=8, budget_s=200, cfg=dict(K=2),
                  bounds='partial: <=2 named, <=2 bound keywords incl. foreign, symbolic bound values', min_nontrivial=200,
                  must_reach=['bound-keyword-is-keyword-only-with-bound-default']),
